@@ -863,3 +863,28 @@ def reannounce(rng):
     sc['family'] = 'honest'
     sc['essential'] = [2]
     return sc
+
+
+def orphaned(rng):
+    """C02: outside end game (ten or more pieces missing) a piece is being fetched from a peer that then disconnects;
+    another honest peer that holds the piece is connected, has unchoked us and is idle (when it unchoked us the piece
+    was reserved for the first peer, so there was nothing to ask it for).  The piece must still be fetched from it."""
+    gname = 'g12'
+    pl, files, n, plens = geo(gname)
+    x = rng.randrange(n)
+    b = peer(0, {x}, serve='none')
+    a = peer(1, {x}, serve='good')
+    c = peer(2, set(range(n)) - {x}, serve='good', lifo=rng.random() < 0.5)
+    steps = [{'op': 'connect', 'peer': 0}, send(0, hs(), bf({x})), send(0, fr('Unchoke')),
+             {'op': 'connect', 'peer': 1}, send(1, hs(), bf({x})), send(1, fr('Unchoke'))]
+    late_c = rng.random() < 0.5
+    if not late_c:
+        steps += [{'op': 'connect', 'peer': 2}, send(2, hs(), bf(set(range(n)) - {x})), send(2, fr('Unchoke')), {'op': 'advance', 'ms': 300}]
+    steps += [{'op': 'close', 'peer': 0}, {'op': 'advance', 'ms': 100}]
+    if late_c:
+        steps += [{'op': 'connect', 'peer': 2}, send(2, hs(), bf(set(range(n)) - {x})), send(2, fr('Unchoke'))]
+    steps.append({'op': 'advance', 'ms': 25000, 'slice': 1000})
+    sc = base(gname, [b, a, c], steps, [{'k': 'peers', 'peers': []}], pat=rng.randrange(251))
+    sc['family'] = 'honest'
+    sc['essential'] = [1, 2]
+    return sc
